@@ -7,6 +7,8 @@
     prints the flags, scripted suspends show the retry loop / first-call exit / resume short-cut / F10
     traversal); the source pattern is the fallback and is reported next to the probe result.  A harmless
     rewrite of a guard line therefore does not flip a flag, removing the guard does.
+    Keep-alive pipelines: `req c r` / `beh c r` declare request r of connection c; the model (Conn.later / Conn.done,
+    `nextRequest` = connection_reset with reuse) and the real daemon are compared over the whole connection.
 (B) correspondence: harness/h_susp.c (real daemon, socketpairs, scripted rounds, per-descriptor I/O log by
     interposing recv/send/sendmsg/writev/sendfile, suspend points in all four callback kinds, resume from the
     callback / before the suspend / after k rounds / from a second thread / by the script) vs
@@ -269,7 +271,11 @@ class ConnSpec:
         return ConnSpec(self.shape, self.seg, self.plan.erased(), self.chunks, self.second.erased() if self.second else None)
 
     def all_bytes(self):
-        return b"".join(self._pieces1())
+        return b"".join(self.pieces())
+
+    def chain(self):
+        """this request and the pipelined ones behind it, in order"""
+        return [self] + (self.second.chain() if self.second else [])
 
     def body(self):
         return b"".join(self.chunks) if self.shape != "get" else b""
@@ -314,10 +320,10 @@ class Case:
         n = 12
         for c in self.conns:
             n += 2 * len(c.pieces())
-            for a in c.plan.acts() + (c.second.plan.acts() if c.second else []):
-                n += 3 + (int(a[1:]) if a[0] == "d" else 0)
-            if c.second:
-                n += 10
+            for q in c.chain():
+                for a in q.plan.acts():
+                    n += 3 + (int(a[1:]) if a[0] == "d" else 0)
+            n += 10 * (len(c.chain()) - 1)
         if self.extra_resume:
             n += 8 + max(r for r, _ in self.extra_resume)
         return n
@@ -330,8 +336,10 @@ class Case:
             body = {"cl": "cl:%d" % len(c.body()), "ch": "ch", "get": "none"}[c.shape]
             L.append("req %d 0 head=%d body=%s" % (i, len(c.head()), body))
             L.append("beh %d 0 %s" % (i, c.plan.beh()))
-            if c.second:
-                L.append("beh %d 1 %s" % (i, c.second.plan.beh()))
+            for r, q in enumerate(c.chain()[1:], 1):
+                body = {"cl": "cl:%d" % len(q.body()), "ch": "ch", "get": "none"}[q.shape]
+                L.append("req %d %d head=%d body=%s" % (i, r, len(q.head()), body))
+                L.append("beh %d %d %s" % (i, r, q.plan.beh()))
         L.append("start")      # the application's scripts are fixed before the daemon starts
         for i, c in enumerate(self.conns):
             L.append("arrive %d %d" % (i, i + 1))
@@ -458,6 +466,12 @@ def gen_cases(ctx, tier, boost=False):
                                   chunks=(b"mn", b"opq", b"r"))
                 if second.plan.rs and second.plan.rid == 2 and not rd_known_ok:
                     second.plan.rd = 0
+                if rng.random() < 0.4:
+                    c3 = rng.choice(allp)
+                    second.second = ConnSpec(rng.choice(["get", "cl", "ch"]), "one", plan_for(c3, lambda p: rng.choice(acts), ("all",), rid=rng.choice([1, 2])),
+                                             chunks=(b"st", b"u", b"vwx"))
+                    if second.second.plan.rs and second.second.plan.rid == 2 and not rd_known_ok:
+                        second.second.plan.rd = 0
             conns.append(ConnSpec(shape, seg, plan, chunks=[bytes([65 + 7 * i + j for j in range(n)]) for n in (3, 4, 2)], second=second))
         cases.append(Case("r%d" % k, mode, conns, RESPS, extra_resume=extra))
         k += 1
@@ -698,7 +712,7 @@ def judge(case, hlines, blines):
         for e in b.violations:
             errs.append(("baseline", "conn %d (no suspends): %s" % (i, e)))
         hc, bc = v.canon(), b.canon()
-        specs = [c] + ([c.second] if c.second else [])
+        specs = c.chain()
         if bc["replies"] != len(specs) or any(not bc.get("reply_complete%d" % r) or bc.get("completed%d" % r) != 0 for r in range(len(specs))):
             errs.append(("baseline", "conn %d: the run without suspends did not complete: %r" % (i, bc)))
             continue
@@ -744,12 +758,16 @@ class Spec:
                          "Mhd.C11.no_lost_resume", "Mhd.C11.suspended_entry_points_return", "Mhd.C11.suspended_frozen",
                          "Mhd.C11.quiet_while_suspended", "Mhd.C11.resume_reenters", "Mhd.C11.race_both_orders",
                          "Mhd.C11.upload_lossless", "Mhd.C11.reply_lossless", "Mhd.C11.upload_complete",
-                         "Mhd.C11.stutter_equivalence", "Mhd.C11.instant_retry_witness", "Mhd.C11.reader_data_witness"]
+                         "Mhd.C11.stutter_equivalence", "Mhd.C11.pipeline_order", "Mhd.C11.epoll_no_lost_wakeup",
+                         "Mhd.C11.eready_traversal_visits", "Mhd.C11.no_block_while_pending",
+                         "Mhd.C11.resume_inside_traversal_partial",
+                         "Mhd.C11.instant_retry_witness", "Mhd.C11.reader_data_witness"]
     trusted_base = ["Lean 4 kernel", "axioms: propext, Classical.choice, Quot.sound at most (audited per theorem)",
                     "hand-written model lean/Mhd/Model/Susp*.lean tied to daemon.c / connection.c by this run's correspondence",
                     "tools/props/C11.py gen_susp (guard presence table, event-loop-info and epoll-state bits regenerated)",
                     "harness/h_susp.c (libc interposition for the I/O log), gcc, ASan/UBSan, Linux socketpair/select/epoll"]
-    assumptions = ["well-formed requests of three shapes (no body, Content-Length, chunked), request head not split across sends",
+    assumptions = ["well-formed requests of three shapes (no body, Content-Length, chunked), request head not split across sends; "
+                   "keep-alive pipelines of such requests (the model leaves the last scripted request of a connection in `finished`)",
                    "the application is legal: consumes at most what is offered, suspends only from its callbacks, "
                    "resumes each suspended connection eventually, does not call MHD_stop_daemon with suspended connections",
                    "no socket errors, no timeouts (connection timeout 0), non-TLS, no thread-per-connection",
@@ -816,7 +834,7 @@ class Spec:
             stats["mode_" + c.mode] = stats.get("mode_" + c.mode, 0) + 1
             for cl in c.conns:
                 stats["shape_%s_%s" % (cl.shape, cl.seg)] = stats.get("shape_%s_%s" % (cl.shape, cl.seg), 0) + 1
-                for a in cl.plan.acts() + (cl.second.plan.acts() if cl.second else []):
+                for a in [a for q in cl.chain() for a in q.plan.acts()]:
                     stats["act_" + a[0]] = stats.get("act_" + a[0], 0) + 1
             errs = [e for e in errs if e[0] != "baseline"] or errs
             if errs:
@@ -825,9 +843,12 @@ class Spec:
                                              c.lines(), "susp"))
                 stats["oracle_rejects"] += 1
                 continue
-            if any(cl.second for cl in c.conns):
+            pipelined = any(cl.second for cl in c.conns)
+            if pipelined:
                 stats["pipelined_cases"] = stats.get("pipelined_cases", 0) + 1
-                continue          # the model carries one request per connection: oracle only
+                stats["pipelined_requests"] = stats.get("pipelined_requests", 0) + sum(len(cl.chain()) for cl in c.conns if cl.second)
+                stats["pipelined_suspends_in_later_requests"] = stats.get("pipelined_suspends_in_later_requests", 0) + \
+                    sum(q.plan.nsusp() for cl in c.conns for q in cl.chain()[1:])
             if not with_model:
                 continue
             ml = mlogs.get(c.name)
@@ -835,7 +856,7 @@ class Spec:
                 failures.append(vlib.Failure("diff", "susp: model driver gave no output", "", c.lines(), "susp"))
                 continue
             mv = analyse(ml, len(c.conns))
-            racy = c.mode.endswith("-thr") or any(a == "t" for cl in c.conns for a in cl.plan.acts())
+            racy = c.mode.endswith("-thr") or any(a == "t" for cl in c.conns for q in cl.chain() for a in q.plan.acts())
             for i in range(len(c.conns)):
                 mf = [l for l in ml if l.startswith("fault") or l.startswith("bad-op")]
                 if mf:
@@ -860,6 +881,21 @@ class Spec:
                     break
                 if not racy:
                     stats["strict_equal"] += 1
+                    if pipelined and i == 0:
+                        stats["pipelined_strict_equal_" + c.mode] = stats.get("pipelined_strict_equal_" + c.mode, 0) + 1
+            else:
+                if not racy and c.mode == "select":
+                    # MHD_get_timeout after every round (0 = do not block: pending data, pending resume, non-empty eready list)
+                    hh, mh = [l for l in hl if l.startswith("hint ")], [l for l in ml if l.startswith("hint ")]
+                    if hh[:len(mh)] != mh:
+                        j = next((k for k in range(min(len(hh), len(mh))) if hh[k] != mh[k]), min(len(hh), len(mh)))
+                        failures.append(vlib.Failure("diff", "susp: timeout hint after a round: model/code differ (%s)" % c.mode,
+                                                     "round %d: code `%s` model `%s`" % (j, hh[j] if j < len(hh) else "<end>", mh[j] if j < len(mh) else "<end>"),
+                                                     c.lines(), "susp"))
+                        stats["diffs"] += 1
+                    else:
+                        stats["hint_sequences_equal"] = stats.get("hint_sequences_equal", 0) + 1
+                        stats["hint_zero_rounds"] = stats.get("hint_zero_rounds", 0) + sum(1 for l in mh if l == "hint 0")
 
     def explore(self, ctx, boost):
         failures = []
@@ -900,6 +936,10 @@ class Spec:
                          + (", internal-thread modes" if ctx.tier == "thorough" else ""),
                "exhaustive": False, "corpus": ncorp, "outcomes": stats,
                "guards": {k: v for k, v in effective_guards()[0].items()},
+               "pipelines": "a second (random part: also a third) request pipelined behind the first one: its bytes arrive with the last piece of the "
+                            "first and sit in the read buffer while the first is suspended; suspend points in every request; model and code "
+                            "compared on the exact callback sequence of the whole connection (counts: pipelined_*)",
+               "timeout_hint": "select mode: MHD_get_timeout64 after every round (0 / none) equals Daemon.hintZero of the model (hint_*)",
                "strength": {"callback order per connection (select/epoll external)": "bounded-exhaustive over placements + random; exact diff",
                             "canonical projection (all modes)": "every case, against the run without suspends and against the model",
                             "guard table": "behavioural probes + source pattern, every run"},
